@@ -124,6 +124,13 @@ fn registry() -> Vec<CheckDef>
 			level_text: "exhaustive enumeration of programs over a fixed universe of items x all set partitions into 2-4 modules with the induced pub/import lines x all file orders x all orders in which the expander can splice the import pairs (merged by expanded state), every visibility negative of every split, name-reuse scenarios and every history of distinct unrelated modules up to length 3 through one Compiler; each compiled by the real pipeline, linked and executed, compared with the model output of the single-file program and with the module compiled alone",
 		},
 		CheckDef {
+			id: "C13",
+			drive: checks::c13::drive,
+			work: checks::c13::work,
+			case_timeout_ms: 60_000,
+			level_text: "exhaustive enumeration of failing and linting inputs from the bounded spaces of the other properties (type and mutability matrices, label / variable / placement bodies, token sequences, single-fault neighbourhoods, cyclic declaration graphs, corpus) plus marker programs with a known offender and multi-file programs, each in six token-preserving layouts; every diagnostic checked against the catalogue, the file, the line, the reference lexer's lexeme boundaries and the known offender, rendered in four configurations, compiled twice in one process and once more in a fresh process; every splice schedule of a hash-ordered import set",
+		},
+		CheckDef {
 			id: "C09",
 			drive: checks::c09::drive,
 			work: checks::c09::work,
@@ -219,6 +226,25 @@ fn main()
 					Ok(_) => println!("resolved ok"),
 					Err(e) => println!("errors: {:?}", e.codes()),
 				}
+			}
+		}
+		"debug-diags" =>
+		{
+			let files: Vec<(String, String)> = args[2..].iter().map(|a| (a.clone(), std::fs::read_to_string(a).unwrap())).collect();
+			let (v, raw) = subjects::alpha::alpha_pipeline_raw(&files, subjects::alpha::FULL);
+			println!("{:?}", v.codes());
+			for e in &raw
+			{
+				let d = subjects::alpha::diag_of(e);
+				let src = &files.iter().find(|f| f.0 == d.file).map(|f| f.1.clone()).unwrap_or_default();
+				let text: String = src.chars().skip(d.span_start).take(d.span_end.saturating_sub(d.span_start)).collect();
+				println!("E{} {}:{}:{} span {}..{} text {:?}", d.code, d.file, d.line, d.line_offset, d.span_start, d.span_end, text);
+				let config = ariadne::Config::default().with_index_type(ariadne::IndexType::Char).with_color(false).with_char_set(ariadne::CharSet::Ascii);
+				let config = penne::alpha::error::Config::from(config).with_color(false);
+				let report = e.build_report(config);
+				let mut buf = Vec::new();
+				let r = report.write(ariadne::sources(files.clone()), &mut buf);
+				println!("{:?}\n{}", r.is_ok(), String::from_utf8_lossy(&buf));
 			}
 		}
 		"debug-multi" =>
